@@ -461,7 +461,9 @@ func makeReplay(p *Prog, id string, v *violation) (string, bool, string) {
 		rep["confirmed_on_real_code"] = true
 		confirmed = true
 		note = "bounded check executed the real code: failing case in the replay output"
-	} else if (o.Status == "failed" || len(o.Model) > 0) && !strings.HasPrefix(o.Unit, "script:") {
+	} else if (o.Status == "failed" || len(o.Model) > 0 || hasTemplate(o.Unit)) && !strings.HasPrefix(o.Unit, "script:") {
+		// an undecided obligation carries no model, but a template may search for a failing input by itself
+		// (directed candidates derived from the clause); only a run that prints SPEC-VIOLATED confirms
 		ok, out, test := replayOnRealCode(p, id, o)
 		rep["replay_test"] = test
 		rel, _ := splitUnit(o.Unit)
